@@ -58,12 +58,12 @@ Properties/C17.vos Properties/C17.vok Properties/C17.required_vos: Properties/C1
 Properties/C02.vo Properties/C02.glob Properties/C02.v.beautified Properties/C02.required_vo: Properties/C02.v Model/Base.vo Model/Schema.vo Model/Wire.vo Model/Typed.vo Model/Procs.vo Model/Inst.vo Spec/Tables.vo Spec/ProcTables.vo Proofs/Finite.vo Proofs/FramingP.vo
 Properties/C02.vio: Properties/C02.v Model/Base.vio Model/Schema.vio Model/Wire.vio Model/Typed.vio Model/Procs.vio Model/Inst.vio Spec/Tables.vio Spec/ProcTables.vio Proofs/Finite.vio Proofs/FramingP.vio
 Properties/C02.vos Properties/C02.vok Properties/C02.required_vos: Properties/C02.v Model/Base.vos Model/Schema.vos Model/Wire.vos Model/Typed.vos Model/Procs.vos Model/Inst.vos Spec/Tables.vos Spec/ProcTables.vos Proofs/Finite.vos Proofs/FramingP.vos
-Properties/C01.vo Properties/C01.glob Properties/C01.v.beautified Properties/C01.required_vo: Properties/C01.v Model/Base.vo Model/Schema.vo Model/Wire.vo Model/Typed.vo Model/Procs.vo Model/Inst.vo Spec/Tables.vo Spec/ProcTables.vo Proofs/Finite.vo Proofs/FramingP.vo Proofs/C11P.vo
-Properties/C01.vio: Properties/C01.v Model/Base.vio Model/Schema.vio Model/Wire.vio Model/Typed.vio Model/Procs.vio Model/Inst.vio Spec/Tables.vio Spec/ProcTables.vio Proofs/Finite.vio Proofs/FramingP.vio Proofs/C11P.vio
-Properties/C01.vos Properties/C01.vok Properties/C01.required_vos: Properties/C01.v Model/Base.vos Model/Schema.vos Model/Wire.vos Model/Typed.vos Model/Procs.vos Model/Inst.vos Spec/Tables.vos Spec/ProcTables.vos Proofs/Finite.vos Proofs/FramingP.vos Proofs/C11P.vos
-Properties/C05.vo Properties/C05.glob Properties/C05.v.beautified Properties/C05.required_vo: Properties/C05.v Model/Base.vo Model/Schema.vo Model/Wire.vo Model/Typed.vo Model/Procs.vo Model/Inst.vo Spec/Tables.vo Spec/ProcTables.vo Proofs/Finite.vo Proofs/FramingP.vo Proofs/C11P.vo
-Properties/C05.vio: Properties/C05.v Model/Base.vio Model/Schema.vio Model/Wire.vio Model/Typed.vio Model/Procs.vio Model/Inst.vio Spec/Tables.vio Spec/ProcTables.vio Proofs/Finite.vio Proofs/FramingP.vio Proofs/C11P.vio
-Properties/C05.vos Properties/C05.vok Properties/C05.required_vos: Properties/C05.v Model/Base.vos Model/Schema.vos Model/Wire.vos Model/Typed.vos Model/Procs.vos Model/Inst.vos Spec/Tables.vos Spec/ProcTables.vos Proofs/Finite.vos Proofs/FramingP.vos Proofs/C11P.vos
+Properties/C01.vo Properties/C01.glob Properties/C01.v.beautified Properties/C01.required_vo: Properties/C01.v Model/Base.vo Model/Schema.vo Model/Wire.vo Model/Utf8.vo Model/Typed.vo Model/Procs.vo Model/Inst.vo Spec/Tables.vo Spec/ProcTables.vo Proofs/Finite.vo Spec/CborItem.vo Proofs/WireP.vo Proofs/SkipP.vo Proofs/TypedP.vo Proofs/EntriesP.vo Proofs/FramingP.vo Proofs/C11P.vo
+Properties/C01.vio: Properties/C01.v Model/Base.vio Model/Schema.vio Model/Wire.vio Model/Utf8.vio Model/Typed.vio Model/Procs.vio Model/Inst.vio Spec/Tables.vio Spec/ProcTables.vio Proofs/Finite.vio Spec/CborItem.vio Proofs/WireP.vio Proofs/SkipP.vio Proofs/TypedP.vio Proofs/EntriesP.vio Proofs/FramingP.vio Proofs/C11P.vio
+Properties/C01.vos Properties/C01.vok Properties/C01.required_vos: Properties/C01.v Model/Base.vos Model/Schema.vos Model/Wire.vos Model/Utf8.vos Model/Typed.vos Model/Procs.vos Model/Inst.vos Spec/Tables.vos Spec/ProcTables.vos Proofs/Finite.vos Spec/CborItem.vos Proofs/WireP.vos Proofs/SkipP.vos Proofs/TypedP.vos Proofs/EntriesP.vos Proofs/FramingP.vos Proofs/C11P.vos
+Properties/C05.vo Properties/C05.glob Properties/C05.v.beautified Properties/C05.required_vo: Properties/C05.v Model/Base.vo Model/Schema.vo Model/Wire.vo Model/Utf8.vo Model/Typed.vo Model/Procs.vo Model/Inst.vo Spec/Tables.vo Spec/ProcTables.vo Proofs/Finite.vo Spec/CborItem.vo Proofs/WireP.vo Proofs/SkipP.vo Proofs/TypedP.vo Proofs/EntriesP.vo Proofs/FramingP.vo Proofs/C11P.vo
+Properties/C05.vio: Properties/C05.v Model/Base.vio Model/Schema.vio Model/Wire.vio Model/Utf8.vio Model/Typed.vio Model/Procs.vio Model/Inst.vio Spec/Tables.vio Spec/ProcTables.vio Proofs/Finite.vio Spec/CborItem.vio Proofs/WireP.vio Proofs/SkipP.vio Proofs/TypedP.vio Proofs/EntriesP.vio Proofs/FramingP.vio Proofs/C11P.vio
+Properties/C05.vos Properties/C05.vok Properties/C05.required_vos: Properties/C05.v Model/Base.vos Model/Schema.vos Model/Wire.vos Model/Utf8.vos Model/Typed.vos Model/Procs.vos Model/Inst.vos Spec/Tables.vos Spec/ProcTables.vos Proofs/Finite.vos Spec/CborItem.vos Proofs/WireP.vos Proofs/SkipP.vos Proofs/TypedP.vos Proofs/EntriesP.vos Proofs/FramingP.vos Proofs/C11P.vos
 Spec/CborItem.vo Spec/CborItem.glob Spec/CborItem.v.beautified Spec/CborItem.required_vo: Spec/CborItem.v Model/Base.vo Model/Wire.vo
 Spec/CborItem.vio: Spec/CborItem.v Model/Base.vio Model/Wire.vio
 Spec/CborItem.vos Spec/CborItem.vok Spec/CborItem.required_vos: Spec/CborItem.v Model/Base.vos Model/Wire.vos
@@ -76,9 +76,12 @@ Proofs/SkipP.vos Proofs/SkipP.vok Proofs/SkipP.required_vos: Proofs/SkipP.v Mode
 Proofs/TypedP.vo Proofs/TypedP.glob Proofs/TypedP.v.beautified Proofs/TypedP.required_vo: Proofs/TypedP.v Model/Base.vo Model/Schema.vo Model/Wire.vo Model/Utf8.vo Model/Typed.vo Spec/CborItem.vo Proofs/WireP.vo Proofs/SkipP.vo
 Proofs/TypedP.vio: Proofs/TypedP.v Model/Base.vio Model/Schema.vio Model/Wire.vio Model/Utf8.vio Model/Typed.vio Spec/CborItem.vio Proofs/WireP.vio Proofs/SkipP.vio
 Proofs/TypedP.vos Proofs/TypedP.vok Proofs/TypedP.required_vos: Proofs/TypedP.v Model/Base.vos Model/Schema.vos Model/Wire.vos Model/Utf8.vos Model/Typed.vos Spec/CborItem.vos Proofs/WireP.vos Proofs/SkipP.vos
-Properties/C06.vo Properties/C06.glob Properties/C06.v.beautified Properties/C06.required_vo: Properties/C06.v Model/Base.vo Model/Schema.vo Model/Wire.vo Model/Utf8.vo Model/Typed.vo Model/Procs.vo Model/Inst.vo Spec/Tables.vo Spec/CborItem.vo Proofs/WireP.vo Proofs/SkipP.vo Proofs/TypedP.vo Proofs/FramingP.vo
-Properties/C06.vio: Properties/C06.v Model/Base.vio Model/Schema.vio Model/Wire.vio Model/Utf8.vio Model/Typed.vio Model/Procs.vio Model/Inst.vio Spec/Tables.vio Spec/CborItem.vio Proofs/WireP.vio Proofs/SkipP.vio Proofs/TypedP.vio Proofs/FramingP.vio
-Properties/C06.vos Properties/C06.vok Properties/C06.required_vos: Properties/C06.v Model/Base.vos Model/Schema.vos Model/Wire.vos Model/Utf8.vos Model/Typed.vos Model/Procs.vos Model/Inst.vos Spec/Tables.vos Spec/CborItem.vos Proofs/WireP.vos Proofs/SkipP.vos Proofs/TypedP.vos Proofs/FramingP.vos
+Proofs/EntriesP.vo Proofs/EntriesP.glob Proofs/EntriesP.v.beautified Proofs/EntriesP.required_vo: Proofs/EntriesP.v Model/Base.vo Model/Schema.vo Model/Wire.vo Model/Utf8.vo Model/Typed.vo Spec/CborItem.vo Proofs/WireP.vo Proofs/SkipP.vo Proofs/TypedP.vo
+Proofs/EntriesP.vio: Proofs/EntriesP.v Model/Base.vio Model/Schema.vio Model/Wire.vio Model/Utf8.vio Model/Typed.vio Spec/CborItem.vio Proofs/WireP.vio Proofs/SkipP.vio Proofs/TypedP.vio
+Proofs/EntriesP.vos Proofs/EntriesP.vok Proofs/EntriesP.required_vos: Proofs/EntriesP.v Model/Base.vos Model/Schema.vos Model/Wire.vos Model/Utf8.vos Model/Typed.vos Spec/CborItem.vos Proofs/WireP.vos Proofs/SkipP.vos Proofs/TypedP.vos
+Properties/C06.vo Properties/C06.glob Properties/C06.v.beautified Properties/C06.required_vo: Properties/C06.v Model/Base.vo Model/Schema.vo Model/Wire.vo Model/Utf8.vo Model/Typed.vo Model/Procs.vo Model/Inst.vo Spec/Tables.vo Spec/CborItem.vo Proofs/WireP.vo Proofs/SkipP.vo Proofs/TypedP.vo Proofs/EntriesP.vo Proofs/FramingP.vo
+Properties/C06.vio: Properties/C06.v Model/Base.vio Model/Schema.vio Model/Wire.vio Model/Utf8.vio Model/Typed.vio Model/Procs.vio Model/Inst.vio Spec/Tables.vio Spec/CborItem.vio Proofs/WireP.vio Proofs/SkipP.vio Proofs/TypedP.vio Proofs/EntriesP.vio Proofs/FramingP.vio
+Properties/C06.vos Properties/C06.vok Properties/C06.required_vos: Properties/C06.v Model/Base.vos Model/Schema.vos Model/Wire.vos Model/Utf8.vos Model/Typed.vos Model/Procs.vos Model/Inst.vos Spec/Tables.vos Spec/CborItem.vos Proofs/WireP.vos Proofs/SkipP.vos Proofs/TypedP.vos Proofs/EntriesP.vos Proofs/FramingP.vos
 Properties/C04.vo Properties/C04.glob Properties/C04.v.beautified Properties/C04.required_vo: Properties/C04.v Model/Base.vo Model/Schema.vo Model/Wire.vo Model/Utf8.vo Model/Typed.vo Model/Procs.vo Model/Inst.vo Spec/Tables.vo Spec/ProcTables.vo Spec/CborItem.vo Proofs/WireP.vo Proofs/SkipP.vo Proofs/TypedP.vo Proofs/FramingP.vo Proofs/C11P.vo Proofs/Finite.vo Proofs/Utf8P.vo Proofs/StrsP.vo
 Properties/C04.vio: Properties/C04.v Model/Base.vio Model/Schema.vio Model/Wire.vio Model/Utf8.vio Model/Typed.vio Model/Procs.vio Model/Inst.vio Spec/Tables.vio Spec/ProcTables.vio Spec/CborItem.vio Proofs/WireP.vio Proofs/SkipP.vio Proofs/TypedP.vio Proofs/FramingP.vio Proofs/C11P.vio Proofs/Finite.vio Proofs/Utf8P.vio Proofs/StrsP.vio
 Properties/C04.vos Properties/C04.vok Properties/C04.required_vos: Properties/C04.v Model/Base.vos Model/Schema.vos Model/Wire.vos Model/Utf8.vos Model/Typed.vos Model/Procs.vos Model/Inst.vos Spec/Tables.vos Spec/ProcTables.vos Spec/CborItem.vos Proofs/WireP.vos Proofs/SkipP.vos Proofs/TypedP.vos Proofs/FramingP.vos Proofs/C11P.vos Proofs/Finite.vos Proofs/Utf8P.vos Proofs/StrsP.vos
